@@ -148,7 +148,8 @@ def _match(listA, listB, rtol, atol, upto_scale=False):
     if upto_scale:
         def nrm(v):
             n = np.linalg.norm(v)
-            return v / n if n > 0 else v
+            # a slack that is zero up to round-off at every point has no direction: all such rows are equal
+            return v / n if n > 1e-11 else np.zeros_like(v)
         LA = [nrm(v) for v in listA]
         LB = [nrm(v) for v in listB]
     else:
